@@ -4,6 +4,8 @@ cd "$(dirname "$0")/.."
 PROPS=${*:-"C18 C13 C15 C14 C17 C16 C06 C07 C08 C09 C19 C20 C12 C10 C05 C11 C04 C01 C02 C03"}
 for p in $PROPS; do
   S=$(date +%s)
-  R=$(./check $p thorough 2>/dev/null | grep -E "^(HELD|VIOLATED|HARNESS|VIOLATION|  key=|KNOWN)" | tr '\n' ' ' | cut -c1-500)
-  echo "$p rc=$? $(( $(date +%s) - S ))s $R" | tee -a thorough_results.txt
+  ./check $p thorough > /tmp/sweep_$$.out 2>/dev/null; RC=$?
+  R=$(grep -E "^(HELD|VIOLATED|HARNESS|VIOLATION|  key=)" /tmp/sweep_$$.out | cut -c1-260 | tr '\n' ' ')
+  echo "$p rc=$RC $(( $(date +%s) - S ))s $R" | tee -a thorough_results.txt
+  rm -f /tmp/sweep_$$.out
 done
